@@ -36,6 +36,8 @@ func TestVerifDriver(t *testing.T) {
 		runC11(em, r)
 	case "C16":
 		runC16(em, r)
+	case "C14":
+		runC14(em, r)
 	default:
 		t.Fatalf("unknown property %s", prop)
 	}
